@@ -124,19 +124,34 @@ pub fn gen_object(rng: &mut Rng, enc: Enc, o: &GenOpts) -> (ObjSpec, ObjModel) {
         let tab = symtab::build(enc, &names, rng);
         let mut dynstr = Sec::new(b".dynstr", k::SHT_STRTAB, tab.strtab.clone());
         dynstr.flags = 2;
-        let dynstr_idx = spec.add(dynstr);
+        // the string table either precedes its symbol table or follows it directly, then sometimes placed at the
+        // next multiple of its own sh_addralign (padding bytes between the two bodies belong to neither)
+        let str_after = rng.bool();
+        if str_after && rng.bool() {
+            dynstr.file_align = *rng.pick(&[4usize, 8, 16, 64]);
+            dynstr.addralign = dynstr.file_align as u64;
+        }
         let mut body = tab.symtab.clone();
         if o.ragged && rng.chance(1, 8) {
             let extra = rng.usize_below(symsize as usize);
             body.extend_from_slice(&rng.bytes(extra));
         }
         let mut dynsym = Sec::new(b".dynsym", k::SHT_DYNSYM, body);
-        dynsym.link = dynstr_idx as u32;
         dynsym.info = 1;
         dynsym.entsize = symsize;
         dynsym.addralign = 8;
         dynsym.file_align = *rng.pick(&align_choices);
-        let dynsym_idx = spec.add(dynsym);
+        let dynsym_idx = if str_after {
+            let next = spec.secs.len() + 1;
+            dynsym.link = (next + 1) as u32;
+            let i = spec.add(dynsym);
+            spec.add(dynstr);
+            i
+        } else {
+            let dynstr_idx = spec.add(dynstr);
+            dynsym.link = dynstr_idx as u32;
+            spec.add(dynsym)
+        };
         if has(rng, o) {
             let nbucket = 1 + rng.below(names.len() as u64 + 2) as u32;
             let mut h = Sec::new(b".hash", k::SHT_HASH, build_sysv(enc, &names, nbucket));
@@ -195,7 +210,12 @@ pub fn gen_object(rng: &mut Rng, enc: Enc, o: &GenOpts) -> (ObjSpec, ObjModel) {
         st.info = 1;
         st.file_align = *rng.pick(&align_choices);
         let st_idx = spec.add(st);
-        spec.add(Sec::new(b".strtab", k::SHT_STRTAB, tab.strtab.clone()));
+        let mut strs = Sec::new(b".strtab", k::SHT_STRTAB, tab.strtab.clone());
+        if rng.bool() {
+            strs.file_align = *rng.pick(&[4usize, 8, 16, 64]);
+            strs.addralign = strs.file_align as u64;
+        }
+        spec.add(strs);
         m.symtab = Some((st_idx, tab));
     }
 
@@ -268,13 +288,47 @@ pub fn gen_object(rng: &mut Rng, enc: Enc, o: &GenOpts) -> (ObjSpec, ObjModel) {
             let r = rng.next_u64();
             enc.put_at(&mut body, 4, r, 4);
         }
-        let pl = rng.usize_below(40);
-        body.extend_from_slice(&rng.bytes(pl));
-        if rng.chance(1, 6) {
-            let cut = rng.usize_below(size_of(St::Chdr, enc.c64));
-            body.truncate(cut);
+        // what follows the header: usually opaque bytes; sometimes bytes that are well formed for the section's own
+        // type (the typed views of a flagged section read what is behind the header, governed by the *section*
+        // header's fields, whatever ch_addralign says)
+        let mut s = Sec::new(b".zdebug", k::SHT_PROGBITS, Vec::new());
+        match rng.below(8) {
+            0 | 1 => {
+                let align = [4u64, 8, 4, 1, 16, 0][rng.usize_below(6)];
+                let model = notes::gen_model(rng, enc, 4);
+                body.extend_from_slice(&notes::emit(enc, align as usize, &model, rng, true));
+                s.sh_type = k::SHT_NOTE;
+                s.addralign = align;
+                s.name = b".znote".to_vec();
+            }
+            2 => {
+                let names = symtab::gen_names(rng, 4, false);
+                body.push(0);
+                for n in &names {
+                    body.extend_from_slice(n);
+                    body.push(0);
+                }
+                s.sh_type = k::SHT_STRTAB;
+                s.name = b".zstr".to_vec();
+            }
+            3 => {
+                let (ty, stt) = if rng.bool() { (k::SHT_REL, St::Rel) } else { (k::SHT_RELA, St::Rela) };
+                let n = rng.usize_below(6);
+                body.extend_from_slice(&rng.bytes(n * size_of(stt, enc.c64)));
+                s.sh_type = ty;
+                s.entsize = size_of(stt, enc.c64) as u64;
+                s.name = b".zrel".to_vec();
+            }
+            _ => {
+                let pl = rng.usize_below(40);
+                body.extend_from_slice(&rng.bytes(pl));
+                if rng.chance(1, 6) {
+                    let cut = rng.usize_below(size_of(St::Chdr, enc.c64));
+                    body.truncate(cut);
+                }
+            }
         }
-        let mut s = Sec::new(b".zdebug", k::SHT_PROGBITS, body);
+        s.body = body;
         s.flags = k::SHF_COMPRESSED;
         m.compressed.push(spec.add(s));
     }
@@ -308,6 +362,18 @@ pub fn gen_object(rng: &mut Rng, enc: Enc, o: &GenOpts) -> (ObjSpec, ObjModel) {
             s.addralign = [0u64, 1, 4, 8][rng.usize_below(4)];
             m.views.push(spec.add(s));
         }
+    }
+
+    // a long section name now and then (-ffunction-sections style: .text.<mangled name>)
+    if !spec.secs.is_empty() && rng.chance(1, 5) {
+        let i = rng.usize_below(spec.secs.len());
+        let n = *rng.pick(&[60usize, 64, 70, 130, 300]);
+        let mut name = spec.secs[i].name.clone();
+        name.push(b'.');
+        while name.len() < n {
+            name.push(b"_ZN3fooE4bar1"[name.len() % 13]);
+        }
+        spec.secs[i].name = name;
     }
 
     // section-name games
